@@ -20,7 +20,6 @@ package termincommittee
 // has committed
 //@ func (*TermInCommittee).Dispose
 //@   props C16 C19
-//@   requires tic.State != nil && tic.electionTrigger != nil && tic.storage != nil
 //@   modifies ghost:schedStopped
 //@   ensures [O16.the-election-timer-is-stopped-when-a-term-is-disposed] schedStopped
 
